@@ -104,7 +104,7 @@ def parseCalls (s : String) : Option (List WCall) :=
 
 structure WCase where
   init : WState
-  dts : List Nat
+  dts : List WOp
 
 def parseWCase (line : String) : Option WCase := do
   let (head, ops) ← match line.splitOn "|" with
@@ -112,10 +112,11 @@ def parseWCase (line : String) : Option WCase := do
     | _ => none
   let fs := fields head
   let snap ← (lookup fs "snap").bind po
-  let dts ← ops.mapM (fun o => if o.startsWith "h" then (o.drop 1).toString.toNat? else none)
+  let dts ← ops.mapM (fun o => if o == "b" then some WOp.brk else if o.startsWith "h" then (o.drop 1).toString.toNat?.map WOp.hb else none)
   pure { init := { first := ← natField fs "first", last := ← natField fs "last", snap, base := ← natField fs "base",
                    cap := ← natField fs "cap", now := 0, next := ← natField fs "next",
-                   failsLeft := ← natField fs "fail", failCount := 0, retryAt := none, inProgress := false }, dts }
+                   failsLeft := ← natField fs "fail", failCount := 0, retryAt := none, inProgress := false,
+                   broken := false, hasWorker := false }, dts }
 
 def isWorker (line : String) : Bool := line.startsWith "k=worker"
 
@@ -124,7 +125,7 @@ def wModelLine (line : String) : String :=
   | none => "bad-case\t-"
   | some wc =>
       let outs := wRun wc.init wc.dts
-      let tags := (outs.map fun (cs, _) =>
+      let tags := (if wc.dts.contains .brk then ["w-stream-break"] else []) ++ (outs.map fun (cs, _) =>
         if cs.contains .pushFailed then "w-push-failed" else if cs.contains .pushOk then "w-push-ok"
         else if cs.isEmpty then "w-nothing" else "w-append").eraseDups
       ";".intercalate (outs.map fun (cs, n) => s!"{showCalls cs}.{n}") ++ "\t" ++ ",".intercalate tags
@@ -142,7 +143,7 @@ def wMonitorLine (case out : String) : String :=
       | none => "bad-line"
       | some os =>
           let s := wc.init
-          match wMon s.first s.last s.snap s.base s.cap 0 s.next 0 none wc.dts os with
+          match wMon s.first s.last s.snap s.base s.cap 0 s.next 0 none false false false wc.dts os with
           | none => "ok"
           | some sig => "bad " ++ sig
 
